@@ -292,6 +292,7 @@ type dbWorld struct {
 	d         *db.DB
 	callers   []db.Caller
 	long      bool // this history uses very long names (length limits, truncation, prefixes)
+	hung      bool // a call did not return: nothing more can be asked of this database
 }
 
 // long names: exactly 256 and 8192 bytes, the same with one more byte or one more path
@@ -357,7 +358,21 @@ func newTwin(w *dbWorld, root string, idx int) *dbWorld {
 
 // exec runs one operation on the real DB with the requested faults injected and
 // returns the canonical result string.
-func (w *dbWorld) exec(op dbOp) (res string) {
+// exec runs one operation with a watchdog: a call that has not returned after 20 s of real time
+// never will (every call is a few file operations); the history ends there, with that observation.
+func (w *dbWorld) exec(op dbOp) string {
+	ch := make(chan string, 1)
+	go func() { ch <- w.exec1(op) }()
+	select {
+	case r := <-ch:
+		return r
+	case <-time.After(20 * time.Second):
+		w.hung = true
+		return "HANG:" + hx("the call did not return within 20 s")
+	}
+}
+
+func (w *dbWorld) exec1(op dbOp) (res string) {
 	c := w.callers[op.caller]
 	w.sk.mu.Lock()
 	w.sk.recs = nil
@@ -746,6 +761,7 @@ func traceDB(o opts) error {
 		sh := &shadow{vers: map[string][]uint32{}, active: map[string]uint32{}, latest: map[string]uint32{}, gone: map[string][]uint32{}, last: map[string][]byte{}}
 		var retry *dbOp
 		var twin *dbWorld
+		prevOp := "nothing"
 		for s := 0; s < o.steps; s++ {
 			op := w.genOp(r, sh, o.profile)
 			if retry != nil {
@@ -756,10 +772,16 @@ func traceDB(o opts) error {
 				cp := op
 				retry = &cp
 			}
+			note("hist=%d step=%d: %s of %q (version argument %d) by caller %d, after %s", h, s, op.kind, op.name, op.ver, op.caller, prevOp)
+			prevOp = fmt.Sprintf("%s of %q (version argument %d) by caller %d", op.kind, op.name, op.ver, op.caller)
 			w.sk.mu.Lock()
 			writesBefore := w.sk.writes
 			w.sk.mu.Unlock()
 			res := w.exec(op)
+			if w.hung {
+				emit("step\tc=%d\top=%s\tn=%s\tv=%d\tval=%s\taok=%s\tsok=%s\tres=%s", op.caller, op.kind, hx(op.name), op.ver, hb(op.val), b01(op.aok == 1), b01(op.sok), res)
+				break
+			}
 			twinRes := ""
 			if twin != nil {
 				if op.aok == 1 && op.sok {
